@@ -197,7 +197,7 @@ static void gen_find(fb_output_t *out)
     fprintf(out->fp,
         "#define __%sdefine_find_by_scalar_field(N, NK, TK)\\\n"
         "static inline size_t N ## _vec_find_by_ ## NK(N ## _vec_t vec__tmp, TK key__tmp)\\\n"
-        "__%sfind_by_scalar_field(N ## _ ## NK, vec__tmp, N ## _vec_at, N ## _vec_len, key__tmp, TK)\n",
+        "__%sfind_by_scalar_field(N ## _ ## NK ## _get, vec__tmp, N ## _vec_at, N ## _vec_len, key__tmp, TK)\n",
         nsc, nsc);
     fprintf(out->fp,
         "#define __%sdefine_scalar_find(N, T)\\\n"
@@ -208,9 +208,9 @@ static void gen_find(fb_output_t *out)
         "#define __%sdefine_find_by_string_field(N, NK) \\\n"
         "/* Note: find only works on vectors sorted by this field. */\\\n"
         "static inline size_t N ## _vec_find_by_ ## NK(N ## _vec_t vec__tmp, const char *s__tmp)\\\n"
-        "__%sfind_by_string_field(N ## _ ## NK, vec__tmp, N ## _vec_at, N ## _vec_len, s__tmp)\\\n"
+        "__%sfind_by_string_field(N ## _ ## NK ## _get, vec__tmp, N ## _vec_at, N ## _vec_len, s__tmp)\\\n"
         "static inline size_t N ## _vec_find_n_by_ ## NK(N ## _vec_t vec__tmp, const char *s__tmp, size_t n__tmp)\\\n"
-        "__%sfind_by_string_n_field(N ## _ ## NK, vec__tmp, N ## _vec_at, N ## _vec_len, s__tmp, n__tmp)\n",
+        "__%sfind_by_string_n_field(N ## _ ## NK ## _get, vec__tmp, N ## _vec_at, N ## _vec_len, s__tmp, n__tmp)\n",
         nsc, nsc, nsc);
     fprintf(out->fp,
         "#define __%sdefine_default_find_by_scalar_field(N, NK, TK)\\\n"
